@@ -42,6 +42,8 @@ def gen_c16(rng: random.Random, sid: str, thorough: bool) -> dict:
             placed = True
         if st['op'] == 'at' and rng.random() < 0.25:
             out.append({'op': 'resp', 'recs': remote_recs(rng)})
+            if rng.random() < 0.2:
+                out[-1]['echo_qu'] = True        # a response that echoes a question with the unicast-response bit
     # the very same datagram again after the one-second window (a client polling with an identical query, a periodic
     # identical announcement): the later steps move back by the gap
     rep: List[dict] = []
@@ -108,7 +110,10 @@ def record_pair(job: Tuple[dict, Any]) -> dict:
     dup_sc['dup'] = mode
     dup = rf.Recorder(dup_sc).run()
     sigs: Dict[str, int] = {}
-    return {'id': '%s/%s' % (sc['id'], mode), 'ref': obs(ref, sigs), 'dup': obs(dup, sigs),
+    mcs = [[e['t'], [[a[0], a[1]] for a in e.get('an', [])]] for e in dup['events']
+           if e['ev'] == 'send' and e.get('mc') and e.get('resp') and not e.get('bad')]
+    echo = [e['t'] for e in dup['events'] if e['ev'] == 'recv' and e.get('resp') and not e.get('bad') and any(q[2] for q in e.get('qs', []))]
+    return {'id': '%s/%s' % (sc['id'], mode), 'ref': obs(ref, sigs), 'dup': obs(dup, sigs), 'mcs': mcs, 'echo': echo,
             'qudups': [{'t': t, 'tc': tc} for (t, tc) in sorted({(d['t'], d['tc']) for d in dup['dups'] if d['qu']})],
             'ndups': len(dup['dups']),
             'n_inj': ref.get('events') and sum(1 for e in ref['events'] if e['ev'] == 'recv' and e.get('inj')) or 0,
@@ -148,6 +153,18 @@ def run_pairs(ctx: Ctx, jobs: List[Tuple[dict, Any]]) -> None:
         tdiv = d['t'] if d is not None else None
         if clause == 'C16_NoExtraMulticast' and d is not None and d['t'] in [q['t'] for q in p['qudups']]:
             disc = 'extra-multicast-at-duplicated-qu-query'
+            # finding D9 is about answers that were *due* by multicast and went out twice.  When every record of the doubled
+            # multicast had been multicast within a quarter of its TTL before that instant, the QU question should have been
+            # answered by unicast alone -- twice, which is permitted -- and there is nothing D9 could have doubled
+            here = [m for m in p['mcs'] if m[0] == d['t']]
+            rids = {a[0]: a[1] for m in here for a in m[1] if a[1] > 0}
+            # (a second of margin: the cache may have missed a sighting that was byte-identical to the one before it, finding D17)
+            recent = {r for r in rids if any(m[0] < d['t'] and d['t'] - m[0] < 250 * a[1] - 1000 for m in p['mcs'] for a in m[1] if a[0] == r and a[1] > 0)}
+            if rids and recent == set(rids):
+                disc = 'extra-multicast-of-recently-multicast-records'
+        elif clause == 'C16_SameListenerCalls' and d is not None and d['t'] in p.get('echo', []):
+            # same cause as D9: a datagram with a QU question -- here a response that echoes one -- is exempt from the guard
+            disc = 'response-echoing-a-qu-question-processed-twice'
         elif clause in ('C16_NoExtraMulticast', 'C16_NothingLost') and tdiv is not None and any(tdiv - 1500 <= q['t'] <= tdiv for q in p['qudups']):
             # the copy of a QU query was processed as a whole: its QM answers were queued a second time, which adds a
             # multicast or moves the flush of the aggregation queue
